@@ -5,6 +5,7 @@ import (
 	"go/ast"
 	"go/token"
 	"go/types"
+	"strings"
 
 	"sopverif/eng"
 )
@@ -381,6 +382,10 @@ func runC08(c *eng.Ctx) {
 	r4 := c.Rule("C08.R4", "D:provenance", "applyFilter: in every returning branch the checksum is CalculateChecksum(string(json.Marshal(V))) where V is the value stored as FilterResult, or the whole object when there is no filter", 3)
 	runC08R4(c, r4)
 
+	// ---- R6
+	r6 := c.Rule("C08.R6", "G:who-may-call", "the hand-made first list and the informer's notifications see an object in the same representation: an informer transform, if any, is also applied to the listed objects", 1)
+	runC08R6(c, r6)
+
 	// ---- R5
 	r5 := c.Rule("C08.R5", "H5:value-discarding type filter", "jq.ApplyFilter: every non-error value yielded by the iterator flows into the result", 1)
 	if f := r5.NeedFunc(pkgJq + ".(*Filter).ApplyFilter"); f != nil {
@@ -657,4 +662,66 @@ func strippedBeforeUse(c *eng.Ctx, r1 *eng.RuleCtx, hwe *eng.Func, evNode *eng.G
 		r1.Check(g.OnlyVia(n, stripped, keepEdge), hwe.Key+" stripped-before "+what, n.Node.Pos(), "reached only after RemoveFullObject or with KeepFullObjectsInMemory set",
 			"with keepFullObjectsInMemory=false the "+what+" can be reached without RemoveFullObject: the full object is kept in memory / delivered in the binding context")
 	}
+}
+
+// runC08R6: the checksum recorded for an object by loadExistedObjects (objects listed through the dynamic client) is
+// compared with the checksum of the same object as the informer delivers it. A transform installed on the informer
+// (SetTransform) changes only the second representation: every unchanged object is then re-delivered as a change
+// when the informer starts. Expected number of transforms: 0; one that is also called by loadExistedObjects is accepted.
+func runC08R6(c *eng.Ctx, r *eng.RuleCtx) {
+	p := c.P
+	list := r.NeedFunc(pkgKem + ".(*resourceInformer).loadExistedObjects")
+	if list == nil {
+		return
+	}
+	n := 0
+	for _, s := range p.AllSites() {
+		fn, ok := s.Callee.(*types.Func)
+		if !ok || fn.Name() != "SetTransform" || fn.Pkg() == nil || fn.Pkg().Path() != "k8s.io/client-go/tools/cache" {
+			continue
+		}
+		if s.In == nil || !strings.HasPrefix(s.In.Key, pkgKem+".") || len(s.Call.Args) != 1 {
+			continue
+		}
+		n++
+		var tf *types.Func
+		switch a := ast.Unparen(s.Call.Args[0]).(type) {
+		case *ast.Ident:
+			tf, _ = s.Pkg.TypesInfo.Uses[a].(*types.Func)
+		case *ast.SelectorExpr:
+			tf, _ = s.Pkg.TypesInfo.Uses[a.Sel].(*types.Func)
+		}
+		if _, isLit := ast.Unparen(s.Call.Args[0]).(*ast.FuncLit); isLit && tf == nil {
+			// a helper the reference tree does not have was written out by the normaliser: match it by its record
+			var asValue []string
+			inlined := map[string]bool{}
+			if nm, ok := c.Extra["normalisation"].(map[string]any); ok {
+				ls, _ := nm["inlined"].([]string)
+				for _, l := range ls {
+					inlined[l] = true
+					if rest, ok := strings.CutPrefix(l, s.In.Key+" <- "); ok && strings.HasSuffix(rest, " (as a value)") {
+						asValue = append(asValue, strings.TrimSuffix(rest, " (as a value)"))
+					}
+				}
+			}
+			if len(asValue) == 1 {
+				r.Check(inlined[list.Key+" <- "+asValue[0]], s.In.Key+" informer transform "+asValue[0], s.Call.Pos(), "loadExistedObjects applies the same function to the listed objects",
+					"the informer delivers objects rewritten by "+asValue[0]+", loadExistedObjects records the checksum of the object as listed: every object the transform changes is re-delivered as Added/Modified when the informer starts although nothing changed in the cluster")
+				continue
+			}
+		}
+		if tf == nil {
+			r.Unknown(s.In.Key+" informer transform", s.Call.Pos(), "the transform installed on the informer is not a named function: it cannot be matched with what loadExistedObjects applies to the listed objects")
+			continue
+		}
+		applied := false
+		for _, ls := range p.AllSites() {
+			if ls.In == list && ls.Callee == types.Object(tf) {
+				applied = true
+			}
+		}
+		r.Check(applied, s.In.Key+" informer transform "+tf.Name(), s.Call.Pos(), "loadExistedObjects applies the same function to the listed objects",
+			"the informer delivers objects rewritten by "+tf.Name()+", loadExistedObjects records the checksum of the object as listed: every object the transform changes is re-delivered as Added/Modified when the informer starts although nothing changed in the cluster")
+	}
+	r.Ok("informer transforms enumerated", list.Decl.Pos(), fmt.Sprintf("%d SetTransform call(s) in the package", n))
 }
